@@ -162,6 +162,17 @@ PRELUDE = r'''
   (array/push sig2-ids id)
   (os/sigaction :usr2 sig2-handler)
   (c20/raise 12))
+# a handler installed with interrupt-interpreter = true: the trampoline also calls janet_interpreter_interrupt, the raising fiber comes
+# back from janet_continue_signal with JANET_SIGNAL_INTERRUPT at its next call / backward jump (counted as suspended, returned by
+# janet_loop1, rescheduled by the caller), the run-queue loop stands still (`auto_suspend`) until the posted event has been delivered
+(def sig3-chan (ev/chan 64))
+(var sig3-users 0)
+(defn signal-interrupt []
+  (when (= 1 (++ sig3-users)) (os/sigaction :urg (fn [&] (ev/give sig3-chan :urg)) true))
+  (c20/raise 23)
+  (var spin 0) (while (< spin 40) (++ spin))
+  (assert (= :urg (ev/take sig3-chan)))
+  (when (= 0 (-- sig3-users)) (os/sigaction :urg nil)))
 # ---- file watcher: a listener on an inotify stream, pinned while listening
 (defn filewatch-roundtrip [tag]
   (def d (string "/tmp/c20-fw-" (os/getpid) "-" tag))
@@ -543,6 +554,7 @@ CYCLES.update({
     "shared-undelivered-after-worker": ("thread", "\n  (def c (ev/thread-chan 2)) (def back (ev/thread-chan 2))\n  (thread-echo c back 1)\n  (def x (ev/thread-chan 1))\n  (ev/give c x) (assert (= x (ev/take back)))     # a worker thread held it too, and has ended\n  (quiesce)\n  (undelivered x c back)\n  (when (odd? i) (gccollect))"),
     # ---- signals, file watcher, ev/to-file
     "signal-roundtrip": ("cheap", "\n  (signal-roundtrip)"),
+    "signal-interrupt-roundtrip": ("cheap", "\n  (signal-interrupt)"),
     "sigaction-install-replace-remove": ("cheap", "\n  (os/sigaction :usr1 (fn [&] nil))\n  (os/sigaction :usr1 (fn [&] 1))\n  (when (odd? i) (os/sigaction :usr1 nil))\n  (os/sigaction :usr1 nil)"),
     "filewatch-event": ("cheap", "\n  (filewatch-roundtrip (% i 4))"),
     "filewatch-listen-unlisten": ("cheap", "\n  (def fw (filewatch/new (ev/chan 4)))\n  (filewatch/add fw \"/tmp\" :create)\n  (filewatch/listen fw)\n  (when (odd? i) (ev/sleep 0))\n  (filewatch/unlisten fw)\n  (filewatch/unlisten fw)"),
@@ -702,6 +714,8 @@ def _task(kind, k, rng):
         return "", "(burst-nowait %d %d)" % (n, base), "done", "", {base + j: "done" for j in range(n)}
     if kind == "signal":
         return "", "(signal-roundtrip)", "done", ""
+    if kind == "signal-interrupt":
+        return "", "(signal-interrupt)", "done", ""
     if kind == "signal-nowait":
         return "", "(signal-nowait %d)" % (2000 + k), "done", "", {2000 + k: "done"}
     if kind == "filewatch":
@@ -750,7 +764,7 @@ MIX_KINDS = ["sleep", "sleep-chain", "thread", "do-thread", "proc", "execute", "
              "duplex-close-both", "duplex-peer-close-both", "duplex-cancel-both", "accept-then-close", "proc-wait-kill-close-pipes",
              "deadline-then-close", "tchan-givers-abandon",
              # session 4: bursts of completions read from the self pipe in one go; signals, file watcher, ev/to-file, supervisor events
-             "burst-await", "burst-nowait", "burst-proc", "burst-tchan", "signal", "signal-nowait", "filewatch", "to-file", "supervisor",
+             "burst-await", "burst-nowait", "burst-proc", "burst-tchan", "signal", "signal-interrupt", "signal-nowait", "filewatch", "to-file", "supervisor",
              "supervisor-thread"]
 
 
